@@ -132,6 +132,11 @@ func (w *World) sqliteReference(dbb, wal []byte) (*Reference, error) {
 	return checkpointCopy(w.ctx, p, w.Cfg.PageSize)
 }
 
+// CheckpointCopy lets SQLite recover and checkpoint a stand-alone copy (db + optional -wal) and returns it as a reference.
+func CheckpointCopy(ctx context.Context, p string, pageSize int) (*Reference, error) {
+	return checkpointCopy(ctx, p, pageSize)
+}
+
 func checkpointCopy(ctx context.Context, p string, pageSize int) (*Reference, error) {
 	db, err := sql.Open("sqlite", fmt.Sprintf("file:%s?_pragma=busy_timeout(1000)&_pragma=wal_autocheckpoint(0)", p))
 	if err != nil {
